@@ -54,17 +54,18 @@ def __text(value):
 
 
 def __convert_tracepoint(tracepoint: TrPoCo):
-    return TracePointConfig(ID=tracepoint.id, path=tracepoint.path, line_number=tracepoint.line_no,
-                            args=tracepoint.args,
-                            watches=tracepoint.watches)
+    return TracePointConfig(ID=__text(tracepoint.id), path=__text(tracepoint.path), line_number=tracepoint.line_no,
+                            args={__text(k): __text(v) for k, v in tracepoint.args.items()},
+                            watches=[__text(w) for w in tracepoint.watches])
 
 
 def __convert_frame(frame: StFr):
-    return StackFrame(file_name=frame.file_name, short_path=frame.short_path, method_name=frame.method_name,
-                      line_number=frame.line_number, class_name=frame.class_name, is_async=frame.is_async,
+    return StackFrame(file_name=__text(frame.file_name), short_path=__text(frame.short_path),
+                      method_name=__text(frame.method_name),
+                      line_number=frame.line_number, class_name=__text(frame.class_name), is_async=frame.is_async,
                       column_number=frame.column_number, variables=[__convert_variable_id(v) for v in frame.variables],
                       app_frame=frame.app_frame,
-                      transpiled_file_name=frame.transpiled_file_name,
+                      transpiled_file_name=__text(frame.transpiled_file_name),
                       transpiled_line_number=frame.transpiled_line_number,
                       transpiled_column_number=frame.transpiled_column_number,
                       )
@@ -80,7 +81,7 @@ def __convert_watch(watch: WaRe):
 
 
 def __convert_variable(variable: Var):
-    return Variable(type=variable.type, value=__text(variable.value), hash=variable.hash,
+    return Variable(type=__text(variable.type), value=__text(variable.value), hash=variable.hash,
                     children=[__convert_variable_id(c) for c in variable.children], truncated=variable.truncated)
 
 
@@ -110,9 +111,10 @@ def convert_snapshot(snapshot: EventSnapshot) -> Snapshot:
                         var_lookup=__convert_lookup(snapshot.var_lookup),
                         ts_nanos=snapshot.ts_nanos, frames=[__convert_frame(f) for f in snapshot.frames],
                         watches=[__convert_watch(w) for w in snapshot.watches],
-                        attributes=[KeyValue(key=k, value=convert_value(v)) for k, v in snapshot.attributes.items()],
+                        attributes=[KeyValue(key=__text(k), value=convert_value(v))
+                                    for k, v in snapshot.attributes.items()],
                         duration_nanos=snapshot.duration_nanos,
-                        resource=[KeyValue(key=k, value=convert_value(v)) for k, v in
+                        resource=[KeyValue(key=__text(k), value=convert_value(v)) for k, v in
                                   snapshot.resource.attributes.items()],
                         log_msg=__text(snapshot.log_msg))
     except Exception:
